@@ -27,6 +27,10 @@ ASSUME = [
     "unparsable = well-formed MerkleTreeLeaf / extra_data whose certificate bytes do not parse; entries whose TLS structure "
     "itself is broken are not asserted",
     "source never smaller than the destination's integrated prefix; NoConsistencyCheck left at its default (false)",
+    "empty get-entries page (200 with zero entries, spelled [] / null / absent): the property only demands that it causes no gap; "
+    "named clauses EmptyPageHandedOn (the migrator sends the empty batch on and asks for the range again) and EmptyRequestRefused "
+    "(the destination answers a request without leaves InvalidArgument as Trillian's validateLogLeaves does, so the pass fails loudly); "
+    "trace validation also accepts a migrator that drops the empty batch and asks again (SkipEmpty)",
     "sizes: source <= 4 (+2 growth), batch 1..3, fetchers/submitters 1..3, <= 2 faults exhaustively (3 in simulation and random scenarios)",
 ]
 
@@ -43,6 +47,10 @@ NAMED = {
     "Bounded": ("bounded:beyond-verified-sth", "the destination holds an index beyond the largest source STH that passed the gate"),
     "NoConflict": ("noconflict:different-content-under-occupied-index", "a leaf was submitted under an index already holding different content"),
     "Complete": ("mirror:gap", "a one-shot migration returned nil with a gap below the verified STH"),
+    "NoGap": ("mirror:gap:pass-reported-complete",
+              "a pass was reported successful (the next pass started from its STH) although the destination has a hole below that "
+              "position: a range, or the remainder of a range after a short / empty get-entries page, was given up "
+              "(MigrillianTrace.tla: invariant NoGap, Migrillian.tla: PosCovered)"),
     "VerbatimBad": ("trace:VerbatimBad", "an unparsable entry was not copied verbatim"),
     "PrefixOK": ("trace:PrefixOK", "harness error: integrated prefix ahead of the stored leaves"),
 }
@@ -68,8 +76,9 @@ def run(ctx, replay=None):
         ctx.exhaustive = True
     # 2. spec -> code: simulated behaviours as fault schedules
     behs = []
-    for cfg in ("MigrillianSim.cfg", "MigrillianSimBenign.cfg"):
-        r = ctx.tlc("migrate", "SimMigrillian", cfg, simulate=ctx.pick(400, 4000), depth=300, count=False, timeout=3000)
+    for cfg, num in (("MigrillianSim.cfg", ctx.pick(400, 4000)), ("MigrillianSimBenign.cfg", ctx.pick(400, 4000)),
+                     ("MigrillianSimPages.cfg", ctx.pick(200, 2000))):
+        r = ctx.tlc("migrate", "SimMigrillian", cfg, simulate=num, depth=300, count=False, timeout=3000)
         b = r.records.get("BEH", [])
         if not b:
             raise Infra("simulation %s exported no behaviours" % cfg)
@@ -82,12 +91,14 @@ def run(ctx, replay=None):
             uniq.append(b)
     ctx.log("behaviours: %d (%d distinct)" % (len(behs), len(uniq)))
     path = ctx.write_ndjson("behaviours.ndjson", uniq)
-    _, outdir, _ = ctx.go_test("vt/c20", run="TestReplay$", env={"VERIF_BEHAVIOURS": path}, toolchain="go1.26", race=True,
-                               timeout=3000, name="c20replay")
+    _, outdir, reps = ctx.go_test("vt/c20", run="TestReplay$", env={"VERIF_BEHAVIOURS": path}, toolchain="go1.26", race=True,
+                                  timeout=3000, name="c20replay")
+    need_empty_pages(reps, "replay")
     validate(ctx, os.path.join(outdir, "replay-traces.ndjson"), None, "replay")
     # 3. code -> spec: random scenarios, traces validated with all invariants on
-    _, outdir, _ = ctx.go_test("vt/c20", run="TestTrace$", env={"VERIF_TRACES": ctx.pick(150, 1500)}, toolchain="go1.26", race=True,
-                               timeout=3000, name="c20trace")
+    _, outdir, reps = ctx.go_test("vt/c20", run="TestTrace$", env={"VERIF_TRACES": ctx.pick(150, 1500)}, toolchain="go1.26", race=True,
+                                  timeout=3000, name="c20trace")
+    need_empty_pages(reps, "trace")
     tr = os.path.join(outdir, "traces.ndjson")
     if not os.path.exists(tr) or os.path.getsize(tr) == 0:
         raise Infra("no trace recorded")
@@ -111,6 +122,13 @@ def run(ctx, replay=None):
         r = run_trace(ctx, bad, "corrupted")
         if not r.violated and not r.records.get("STUCK"):
             raise Infra("a trace with a corrupted leaf was accepted by MigrillianTrace.tla: the binding does not bind")
+
+
+def need_empty_pages(reps, label):
+    """vacuity guard: the empty-page dimension must have reached the real fetcher"""
+    n = sum((rep.get("extra") or {}).get("empty_pages_served", 0) for rep in reps)
+    if reps and n == 0:
+        raise Infra("no empty get-entries page was served in the %s runs: the emptyPage dimension was not exercised" % label)
 
 
 def run_trace(ctx, path, label):
